@@ -946,6 +946,33 @@ restore_ownership (void *data)
                                                 d->hash_entry);
     }
   
+  /* bus_service_swap_owner() does not remove the owner, it only moves
+   * it behind the new primary owner: in that case the owner is still
+   * in the queue (and in its connection's list of owned services) and
+   * just has to be moved back to where it was. The preallocated links
+   * are not needed and are freed with the rest of the restore data.
+   */
+  link = _dbus_list_find_last (&d->service->owners, d->owner);
+  if (link != NULL)
+    {
+      DBusList *before;
+
+      _dbus_list_unlink (&d->service->owners, link);
+
+      before = _dbus_list_get_first_link (&d->service->owners);
+      while (before != NULL)
+        {
+          if (before->data == d->before_owner)
+            break;
+
+          before = _dbus_list_get_next_link (&d->service->owners, before);
+        }
+
+      _dbus_list_insert_before_link (&d->service->owners, before, link);
+      d->hash_entry = NULL;
+      return;
+    }
+
   /* We don't need to send messages notifying of these
    * changes, since we're reverting something that was
    * cancelled (effectively never really happened)
